@@ -67,7 +67,7 @@ static void parse_stat(const char * prefix, stat_t * st) {
 }
 
 static int component_skip(int nf, int oi) { (void)nf; (void)oi; return 0; }
-static const char * const AUX_NAMES[4] = { 0, 0, 0, 0 };
+static const char * const AUX_NAMES[4] = { "cases whose graph bytes equal an earlier setting's (.stat reused)", ".stat files produced and parsed", 0, 0 };
 
 static void component_case(void) {
   const oracle_t * o = CASE.o; const sched_t * s = CASE.s;
@@ -113,12 +113,24 @@ static void component_case(void) {
       }
   }
 
-  /* (3) the .stat file */
+  /* (3) the .stat file.  It is a function of the position-independent DAG dr_dump() builds from the graph in memory:
+     when an earlier option setting of this same execution left a graph with the very same bytes (most of the 90
+     settings of the thorough grid do), the file it produced is reused instead of being produced and parsed again. */
   long in_memory = dr_dag_count_nodes(GS.root);
   if (ri->cur_node_count != in_memory) found("materialized-count:root.cur_node_count", NULL, "root cur_node_count = %ld, %ld nodes are in memory", ri->cur_node_count, in_memory);
-  stat_prepare(SCRATCH);
-  dr_dump_();
-  static stat_t st; parse_stat(SCRATCH, &st);
+  static stat_t st; static struct { unsigned long long h; stat_t st; } memo[32]; static int nmemo;
+  if (CASE.oi == 0) nmemo = 0;
+  unsigned long long h; int hit = -1;
+  { dr_pi_dag G0[1]; dr_make_pi_dag(G0, GS.root, GS.start_clock); h = pi_hash(G0); free(G0->T); free(G0->E); free(G0->S); }
+  for (int i = 0; i < nmemo; i++) if (memo[i].h == h) hit = i;
+  if (hit >= 0 && !CASE.verbose) { st = memo[hit].st; SLOT->aux[0]++; }
+  else {
+    stat_prepare(SCRATCH);
+    dr_dump_();
+    parse_stat(SCRATCH, &st);
+    SLOT->aux[1]++;
+    if (nmemo < 32) { memo[nmemo].h = h; memo[nmemo].st = st; nmemo++; }
+  }
   if (CASE.verbose) {
     printf("---- %s.stat\n%s----\n", SCRATCH, st.text);
     printf("root: t_1=%ld t_inf=%ld nodes c/w/o/e=%ld/%ld/%ld/%ld edges end/create/create_cont/wait_cont/other_cont=%ld/%ld/%ld/%ld/%ld cur_node_count=%ld in_memory=%ld\n",
